@@ -381,6 +381,19 @@ func (c *Cluster) record(storeIdx, inc int, req *pb.RaftCmdRequest, resp *pb.Raf
 // AppliedCount is the number of recorded applications so far.
 func (c *Cluster) AppliedCount() int64 { return c.applied.Load() }
 
+// AppliedOn is the number of write commands store idx has applied to region so far (all incarnations).
+func (c *Cluster) AppliedOn(idx int, region uint64) int {
+	c.recMu.Lock()
+	defer c.recMu.Unlock()
+	n := 0
+	for k, v := range c.seqs {
+		if k.Store == idx && k.Region == region {
+			n += len(v)
+		}
+	}
+	return n
+}
+
 // Sequences returns a snapshot of all applied sequences.
 func (c *Cluster) Sequences() map[SeqKey][]*AppliedRec {
 	c.recMu.Lock()
